@@ -85,6 +85,28 @@ func randomRange(rng *rng.RNG) func(int, int) int {
 	}
 }
 
+// checkedRandomRange wraps randomRange to report an error for bounds that do not define a non-empty range of integers.
+func checkedRandomRange(rng *rng.RNG) func(int, int) (int, error) {
+	unchecked := randomRange(rng)
+	return func(lowerBound, upperBound int) (int, error) {
+		if upperBound < lowerBound || upperBound-lowerBound+1 <= 0 {
+			return 0, fmt.Errorf("invalid range [%d, %d]", lowerBound, upperBound)
+		}
+		return unchecked(lowerBound, upperBound), nil
+	}
+}
+
+// checkedDice wraps dice to report an error for a number of sides lower than 1.
+func checkedDice(rng *rng.RNG) func(int) (int, error) {
+	unchecked := dice(rng)
+	return func(sides int) (int, error) {
+		if sides < 1 {
+			return 0, fmt.Errorf("invalid number of sides %d", sides)
+		}
+		return unchecked(sides), nil
+	}
+}
+
 // dice returns a random integer between 1 and sides, inclusive
 func dice(rng *rng.RNG) func(int) int {
 	return func(sides int) int {
